@@ -509,7 +509,7 @@ def pStmt (env : Env) : Nat → List Tok → Option (Stmt × List Tok)
   | 0, _ => none
   | _ + 1, [] => none
   | f + 1, t :: r =>
-    let fe := 8 * (r.length + 2)   -- fuel for one expression
+    let fe := 32 * (r.length + 2)   -- fuel for one expression (30 per token suffices: DrxProofs.SpecLingo.fuel_bound)
     if t.kw "set" then
       match pLvalue env fe r with
       | some (lv, o :: r1) =>
